@@ -308,10 +308,15 @@ def RTree.leaves : RTree → List Nat
 def dumpHC (r : H2C × Colors) : List (Nat × List Nat) :=
   (insertAll [] (r.1.map (·.1))).filterMap (fun h => (r.1.get h).map (fun col => (h, col)))
 
+/-- what the in-memory index answers for one hash: the ids of its colour
+(`hash_to_color.get(hash)` then `colors.indices(color)`) -/
+def memIds (r : H2C × Colors) (h : Nat) : List Nat :=
+  match r.1.get h with
+  | some col => (r.2.indices col).getD []
+  | none => []
+
 /-- mem `counter_for_query` -/
 def memCounter (r : H2C × Colors) (Q : List Nat) : List (Nat × Nat) :=
-  tally (Q.flatMap (fun h => match r.1.get h with
-    | some col => (r.2.indices col).getD []
-    | none => []))
+  tally (Q.flatMap (memIds r))
 
 end RevIdx
